@@ -145,7 +145,65 @@ fn realise(v: &Arc<ViewD>, cx: &Ctx) -> AnyView {
             }
             .into_any()
         }
-        ViewD::Susp(_) | ViewD::Errb(..) => ().into_any(),
+        ViewD::Susp(x, a) => {
+            let (cx1, x) = (cx.clone(), x.clone());
+            let (cx2, a) = (cx.clone(), Arc::new((**a).clone()));
+            let derived = AsyncDerived::new(move || {
+                let v = eval(&cx1, &x);
+                async move {
+                    YieldOnce(false).await;
+                    v
+                }
+            });
+            view! {
+                <Suspense fallback=|| "wait".to_string()>
+                    {move || {
+                        let (a, cx2) = (a.clone(), cx2.clone());
+                        Suspend::new(async move {
+                            let v = derived.await;
+                            (v.to_string(), realise(&a, &cx2))
+                        })
+                    }}
+                </Suspense>
+            }
+            .into_any()
+        }
+        ViewD::Errb(x, a) => {
+            let (cx1, x) = (cx.clone(), x.clone());
+            let (cx2, a) = (cx.clone(), Arc::new((**a).clone()));
+            view! {
+                <ErrorBoundary fallback=|_errors| "error".to_string()>
+                    {move || {
+                        if eval(&cx1, &x) != 0 { Err::<AnyView, HxErr>(HxErr) } else { Ok(realise(&a, &cx2)) }
+                    }}
+                </ErrorBoundary>
+            }
+            .into_any()
+        }
+    }
+}
+
+#[derive(Debug, Clone)]
+struct HxErr;
+impl std::fmt::Display for HxErr {
+    fn fmt(&self, f: &mut std::fmt::Formatter<'_>) -> std::fmt::Result {
+        write!(f, "hx")
+    }
+}
+impl std::error::Error for HxErr {}
+
+/// a future that is pending once: the value of the `AsyncDerived` arrives one poll later
+struct YieldOnce(bool);
+impl std::future::Future for YieldOnce {
+    type Output = ();
+    fn poll(mut self: std::pin::Pin<&mut Self>, cx: &mut std::task::Context<'_>) -> std::task::Poll<()> {
+        if self.0 {
+            std::task::Poll::Ready(())
+        } else {
+            self.0 = true;
+            cx.waker().wake_by_ref();
+            std::task::Poll::Pending
+        }
     }
 }
 
@@ -327,20 +385,29 @@ impl Live {
         let view = self.view.clone().unwrap();
         let fo = Owner::new();
         let (defs, env, root2) = (self.defs.clone(), self.env.clone(), self.root2.clone());
-        let s = fo.with(|| {
+        let mut st = fo.with(|| {
             let cx = make_ctx(&defs, &env);
             let v = realise(&view, &cx);
             let mut st = v.build();
             st.mount(&root2, None);
-            let s = plain(&root2);
+            st
+        });
+        // let the fresh render's own tasks run (Suspense resolves, effects settle)
+        self.run_oracle_tasks();
+        let s = plain(&self.root2);
+        fo.with(|| {
             st.unmount();
             drop(st);
-            s
         });
         fo.cleanup();
         drop(fo);
         // the fresh render's tasks end when polled (their effects are gone)
-        loop {
+        self.run_oracle_tasks();
+        s
+    }
+
+    fn run_oracle_tasks(&mut self) {
+        for _ in 0..10_000 {
             self.note_tasks(false);
             let r: Vec<usize> = sched::ready().into_iter().filter(|id| self.taskmap[*id].is_none()).collect();
             if r.is_empty() {
@@ -350,7 +417,6 @@ impl Live {
                 sched::poll(id);
             }
         }
-        s
     }
 
     fn guard_fired(&self, g: &Guard) -> bool {
@@ -447,7 +513,7 @@ impl Live {
         self.note_tasks(true);
         let o = self.obs();
         let v = self.verdict();
-        if self.impl_only { format!("skip{v}") } else { format!("{prefix}{o}{v}") }
+        if self.impl_only && std::env::var("C04_SHOW").is_err() { format!("skip{v}") } else { format!("{prefix}{o}{v}") }
     }
 
     fn step(&mut self, line: &str) -> String {
@@ -568,7 +634,7 @@ fn view_ok(v: &ViewD, defs: &[Def]) -> bool {
         ViewD::DynText(e) => reads_below(e, n),
         ViewD::Either(c, a, b) | ViewD::Show(c, a, b) => reads_below(c, n) && view_ok(a, defs) && view_ok(b, defs),
         ViewD::For(sel, _) => reads_below(sel, n),
-        ViewD::Susp(a) => view_ok(a, defs),
+        ViewD::Susp(e, a) => reads_below(e, n) && view_ok(a, defs),
         ViewD::Errb(e, a) => reads_below(e, n) && view_ok(a, defs),
     }
 }
